@@ -1,5 +1,6 @@
 """C20 - rotamer assignment is a correct hysteresis state machine; transition bookkeeping."""
 import itertools
+import os
 
 import numpy as np
 from hypothesis import reject, strategies as st
@@ -276,6 +277,13 @@ def lib_states(case):
     angles, bounds, buf, vals = build_args(case)
     check_domain(case, vals)
     out = rotamer._rotamers(angles, bounds, buffer_width=buf)
+    # the state sequence belongs to the caller: assigning another, equally long angle series (what all_rotamers does
+    # dihedral after dihedral) may not change it
+    kept = np.array(out, copy=True)
+    other = rotamer._rotamers(np.asarray(angles)[::-1].copy(), bounds, buffer_width=buf)
+    require(other is not out and np.array_equal(np.asarray(out), kept),
+            "the state sequence returned by an earlier call changed when another angle series was assigned",
+            before=kept.tolist()[:10], after=np.asarray(out).tolist()[:10])
     return out, vals
 
 
@@ -727,6 +735,73 @@ def m_no_transition_anywhere(case, exc):
     return isinstance(exc, (IndexError, AttributeError, TypeError)) and not isinstance(exc, Violation)
 
 
+# --------------------------------------------------------------------------
+# the trajectory-level entry points (phi/psi/chi/all_rotamers) on the repository's own test trajectory: every
+# dihedral column must be the hysteresis machine of its angles for the REQUESTED buffer and that family's basins
+
+_TRAJ = {}
+
+
+def _test_traj():
+    if "t" not in _TRAJ:
+        import mdtraj as md
+        from vf import build
+        d = os.path.join(build.REPO, "enspara", "test", "cards_data")
+        _TRAJ["t"] = md.load(os.path.join(d, "trj0.xtc"), top=os.path.join(d, "PROT_only.pdb"))
+    return _TRAJ["t"]
+
+
+@st.composite
+def traj_case(draw):
+    which = draw(st.sampled_from(["phi", "psi", "chi", "chi", "all"]))
+    return {"which": which, "buffer": draw(st.sampled_from([0, 1, 5, 7.5, 15, 15, 30, 45, 59, 100])),
+            "start": draw(st.integers(0, 4000)), "stride": draw(st.sampled_from([1, 1, 3, 17, 50])),
+            "n": draw(st.integers(2, 40)), "kw": draw(st.booleans())}
+
+
+def run_traj(case):
+    t = _test_traj()[case["start"]::case["stride"]][:case["n"]]
+    buf = case["buffer"]
+    if buf >= 120 and case["which"] in ("chi", "all"):
+        raise Skip("buffer too wide for three basins")
+    fn = getattr(rotamer, case["which"] + "_rotamers")
+    got, atom_inds, n_states = fn(t, buffer_width=buf) if case["kw"] else fn(t, buf)
+    got = np.asarray(got)
+    cols = []           # (family, angles in degrees as the family's machine sees them, boundaries)
+    fams = ["phi", "psi", "chi"] if case["which"] == "all" else [case["which"]]
+    for fam in fams:
+        if fam == "chi":
+            parts = [rotamer.dihedral_angles(t, "chi%d" % i)[0] for i in range(1, 5)]
+            ang = np.concatenate(parts, axis=1)
+            bounds = [0, 120, 240, 360]
+        else:
+            ang = rotamer.dihedral_angles(t, fam)[0]
+            bounds = [0, 180, 360]
+            if fam == "psi":
+                ang = ang - 100
+                ang[ang < 0] += 360
+                bounds = [0, 160, 360]
+        for j in range(ang.shape[1]):
+            cols.append((fam, ang[:, j], bounds))
+    require(got.shape == (t.n_frames, len(cols)), "rotamer table has the wrong shape", got=got.shape,
+            want=(t.n_frames, len(cols)))
+    require(np.asarray(n_states).shape == (len(cols),) and
+            [int(x) for x in n_states] == [len(b) - 1 for _, _, b in cols], "n_states does not give the basins per dihedral")
+    changed = 0
+    for j, (fam, ang, bounds) in enumerate(cols):
+        vals = [float(a) for a in ang]
+        ref = ref_machine(vals, bounds, float(buf))
+        plain = ref_machine(vals, bounds, 0.0)
+        changed += ref != plain
+        if [int(x) for x in got[:, j]] != ref:
+            i = next(k for k in range(len(ref)) if int(got[k, j]) != ref[k])
+            raise Violation("%s_rotamers(buffer_width=%s): column %d (%s) differs from the hysteresis machine of its angles "
+                            "| first_diff=%d angle=%r prev_state=%s got=%d want=%d" % (
+                                case["which"], buf, j, fam, i, vals[i], ref[i - 1] if i else None, int(got[i, j]), ref[i]))
+    return Info(changed > 0 and buf != 15, ["traj_which=" + case["which"], "traj_buffer=%s" % buf,
+                                              "buffer_matters=%s" % (changed > 0)])
+
+
 MATCHERS = {"crossed_gates_wraparound_basin": m_crossed_gates, "no_transition_anywhere": m_no_transition_anywhere}
 
 
@@ -744,5 +819,7 @@ CLAUSES = [
     Clause("transitions_2d", table_case("2d"), run_transitions_rows, quick=500, thorough=10000),
     Clause("transitions_ragged", table_case("ragged"), run_transitions_rows, quick=400, thorough=8000),
     Clause("transition_stats_times", stats_case(), run_transition_stats, quick=300, thorough=5000),
+    Clause("trajectory_entry_points", traj_case(), run_traj, quick=120, thorough=2000,
+           doc="phi/psi/chi/all_rotamers on slices of the repository's test trajectory vs the reference machine per dihedral"),
     Clause("rotamers_then_transitions", history_case(), run_pipeline, quick=300, thorough=5000),
 ]
